@@ -437,6 +437,25 @@ class World:
         self.res[ob.rid].needs_reopen = True
         self.probe("object_dropped_while_buffered")
 
+    def resync_uncertain(self):
+        """Once no context is active, a resource that was hit by an I/O error inside a buffered operation holds whatever
+        reached the disk (the failed operation may or may not have been applied): the model follows the backend."""
+        if self.ctx:
+            return
+        for r in self.res:
+            if getattr(r, "uncertain", False):
+                r.uncertain = False
+                obs = self.observe(r)
+                if isinstance(obs, tuple) and obs and obs[0] == "<unparsable>":
+                    raise Violation("wrong_data_after_fault", f"resource {r.rid} is unparsable after a faulted buffered operation")
+                empty = {} if r.kind == "dict" else []
+                r.model = deep(obs) if obs is not ABSENT else empty
+                r.disk = deep(obs) if obs is not ABSENT else None
+                r.bufstate, r.frozen = None, None
+                for h in self.handles:
+                    if h is not None and h.path and self.objs[h.oid].rid == r.rid:
+                        h.state = "dropped"
+
     def reopen_dropped(self):
         """Once no context is active: resources whose objects were all dropped get a fresh object."""
         if self.ctx:
@@ -561,6 +580,8 @@ class World:
             raise Skip()
         if getattr(r, "corrupt", False) and "corrupt_ok" not in self.cfg:
             raise Skip()
+        if getattr(r, "uncertain", False):
+            raise Skip()       # after an I/O error inside a buffered operation the resource is left alone until the contexts exit
         handle_nodes = [x.node if x is not None else None for x in self.handles]
         args = M.dec(st.get("args", []), handle_nodes)
         margs = M.dec(st.get("args", []), _ModelOperands(self))
@@ -786,7 +807,7 @@ class World:
         for r in self.res:
             obs = self.observe(r)
             exp = ABSENT if r.disk is None else r.disk
-            if getattr(r, "corrupt", False):
+            if getattr(r, "corrupt", False) or getattr(r, "uncertain", False):
                 continue
             if r.frozen is None and self.cfg.get("forced_flush_possible") and r.bufstate is not None:
                 # a capacity-forced flush may have written the logical content
@@ -917,8 +938,12 @@ class World:
                 for ob in flushed:
                     ob.gone_buffered = False
         self.stat("ctx_exit")
+        unc = [r for r in self.res if getattr(r, "uncertain", False)]
+        if unc and isinstance(res, M.Raised) and isinstance(res.exc, (OSError, self.ns.errors.BufferedError)):
+            res = None      # a flush may fail for a file that was hit by an I/O error earlier
         self.after_exit(c, cls, flushed, res, pre)
         self.reopen_dropped()
+        self.resync_uncertain()
 
     def faulted_exit(self, st, c):
         """Fault-injecting configuration: an I/O error hits the flush of a context exit. The exit may raise and buffered
@@ -948,6 +973,8 @@ class World:
             raise Violation("context_error", f"leaving {c['kind']} context with an injected OSError raised {res!r}")
         # re-synchronise: files of objects that are no longer buffered hold whatever reached the disk
         for r in self.res:
+            if getattr(r, "uncertain", False):
+                continue      # hit by an I/O error inside an operation earlier: resynchronised below
             if not any(self.is_buffered(x) for x in self.objs if x.rid == r.rid and x.alive and hasattr(x.o, "buffered")):
                 obs = self.observe(r)
                 if obs is not ABSENT and not (isinstance(obs, tuple) and obs and obs[0] == "<unparsable>"):
@@ -965,6 +992,7 @@ class World:
         hook = getattr(self, "after_faulted_exit", None)
         if hook:
             hook(c, cls)
+        self.resync_uncertain()
         if "locks" in self.oracles:
             self.check_locks("faulted context exit")
         if "bufsize" in self.oracles:
